@@ -400,7 +400,7 @@ func (v *FnV) binop(st *State, op token.Token, a, b Value, t types.Type, n ast.N
 	switch op {
 	case token.LSS, token.LEQ, token.GTR, token.GEQ:
 		if isString(a.T) || isString(b.T) {
-			v.c.glob("strlt", "(declare-fun str_lt (Str Str) Bool)")
+			v.c.strLtFns()
 			var s string
 			switch op {
 			case token.LSS:
@@ -609,7 +609,8 @@ func (v *FnV) convert(st *State, val Value, t types.Type) Value {
 	t = v.substT(t)
 	if val.T == nil {
 		if isFloatType(t) {
-			return Value{T: t, S: fmt.Sprintf("((_ to_fp 11 53) RNE (to_real %s))", val.S)}
+			// (to_fp of a symbolic Real is mishandled by z3 5.1: only literals are converted directly)
+			return Value{T: t, S: v.intToFloat(st, Value{T: tInt, S: val.S}, t)}
 		}
 		return Value{T: t, S: v.c.coerceBV(val, t).S}
 	}
